@@ -65,7 +65,7 @@ func runC18(c *Ctx) {
 			}
 		}
 	}
-	r.Floor("send-callers", nsend, 4, "response send sites")
+	r.Floor("send-callers", nsend, 1, "response send sites")
 	c18OneResponse(c, p, srv, senders)
 	c18Framing(c, p)
 	// R5 document store: lock discipline in pkg/lsp
@@ -87,7 +87,7 @@ func runC18(c *Ctx) {
 			r.Violate("doc-lock", key, p.Pos(u.in.Pos()), "DocumentManager."+u.field+" accessed without the manager's lock (write lock for writes)")
 		}
 	}
-	r.Floor("doc-lock", nd, 5, "accesses to the document map")
+	r.Floor("doc-lock", nd, 2, "accesses to the document map")
 	c18Mirror(c, p)
 	// R3 bounds
 	be := newBoundsEngine(p)
@@ -106,7 +106,7 @@ func runC18(c *Ctx) {
 			}
 		}
 	}
-	r.Floor("bounds", nb, 20, "index/slice expressions in pkg/lsp")
+	r.Floor("bounds", nb, 12, "index/slice expressions in pkg/lsp")
 }
 
 func c18Mirror(c *Ctx, p *core.Prog) {
@@ -187,7 +187,7 @@ func c18Mirror(c *Ctx, p *core.Prog) {
 			}
 		}
 	}
-	r.Floor("mirror-coupling", n, 3, "Content stores / applyChange calls")
+	r.Floor("mirror-coupling", n, 1, "Content stores / applyChange calls")
 	// Open builds a fresh Document: its composite literal must split the very content it stores
 	c18OpenLiteral(c, p)
 }
@@ -427,7 +427,7 @@ func c18OneResponse(c *Ctx, p *core.Prog, fn *ssa.Function, senders map[*ssa.Fun
 		ok := false
 		for _, cd := range core.ControlDeps(b) {
 			for _, bo := range condConjuncts(cd.If.Cond, 0) {
-				if bo.Op == token.NEQ && (core.IsNilConst(bo.X) || core.IsNilConst(bo.Y)) && cd.Succ == 0 {
+				if (bo.Op == token.NEQ && cd.Succ == 0 || bo.Op == token.EQL && cd.Succ == 1) && (core.IsNilConst(bo.X) || core.IsNilConst(bo.Y)) {
 					other := bo.X
 					if core.IsNilConst(other) {
 						other = bo.Y
